@@ -1,9 +1,14 @@
 import WhVerif.Model.Cost
-/-! Abstract "interface DP" correctness (DESIGN Appendix A). Core Lean only. -/
+/-!
+# Abstract "interface DP" correctness (DESIGN Appendix A, generalised). Core Lean only.
+
+A system of `n` columns over global assignments `X`: column `c` sees the view `v c x : A`, neighbouring columns
+`c`, `c+1` communicate through the interface `i c x : I`, which is a function of either neighbouring view.
+If pasts and futures can be glued whenever the interfaces agree, the column-by-column DP over views computes,
+cell by cell, the minimum over all global assignments of the cost of the columns so far.
+-/
 namespace WhVerif.InterfaceDp
 open WhVerif.Cost
-
-/-! ### the abstract interface DP -/
 
 variable {X A I : Type}
 
@@ -18,7 +23,7 @@ structure Sys (X A I : Type) where
   views : Nat → List A                     -- all views of column c
   hp : ∀ c x, i c x = p c (v c x)
   hq : ∀ c x, i c x = q c (v (c+1) x)
-  hviews : ∀ c a, a ∈ views c ↔ ∃ x ∈ univ, v c x = a
+  hviews : ∀ c, c < n → ∀ a, a ∈ views c ↔ ∃ x ∈ univ, v c x = a
   /-- gluing: past of y (columns ≤ c) with future of x (columns > c) when interfaces agree -/
   glue : ∀ c x y, x ∈ univ → y ∈ univ → i c x = i c y →
           ∃ z ∈ univ, (∀ c', c' ≤ c → v c' z = v c' y) ∧ (∀ c', c < c' → v c' z = v c' x)
@@ -36,58 +41,95 @@ theorem past_congr (S : Sys X A I) (c : Nat) (x y : X)
     simp only [past]
     rw [ih (fun c' hc' => h c' (by omega)), h (c+1) (Nat.le_refl _)]
 
-/-- the DP over views only (what the implementation computes) -/
+mutual
+/-- value of the DP cell of view `a` in column `c` -/
+def cell [DecidableEq I] (S : Sys X A I) : Nat → A → Option Nat
+  | 0, a => S.g 0 a
+  | c+1, a => cadd (dp S c (S.q c a)) (S.g (c+1) a)
+/-- the projection of column `c` onto the interface: minimum over all views with that interface -/
 def dp [DecidableEq I] (S : Sys X A I) : Nat → I → Option Nat
-  | 0, ι => minOver ((S.views 0).filter (fun a => S.p 0 a = ι)) (fun a => S.g 0 a)
-  | c+1, ι => minOver ((S.views (c+1)).filter (fun a => S.p (c+1) a = ι))
-                (fun a => cadd (dp S c (S.q c a)) (S.g (c+1) a))
+  | c, ι => minOver ((S.views c).filter (fun a => S.p c a = ι)) (fun a => cell S c a)
+end
 
-/-- DP cell = min over all global assignments with that interface of the cost of columns ≤ c -/
-theorem dp_spec [DecidableEq I] (S : Sys X A I) (c : Nat) (ι : I) :
-    IsMinOf (fun x => x ∈ S.univ ∧ S.i c x = ι) (past S c) (dp S c ι) := by
-  induction c generalizing ι with
+/-- Main lemma: for any decidable restriction `P` on the views of column `c`, the minimum of the cells over
+the views satisfying `P` is the minimum over all global assignments whose view satisfies `P` of the cost of
+columns `0..c`. -/
+theorem cell_spec [DecidableEq I] (S : Sys X A I) (c : Nat) (hc : c < S.n) (P : A → Bool) :
+    IsMinOf (fun x => x ∈ S.univ ∧ P (S.v c x) = true) (past S c)
+      (minOver ((S.views c).filter P) (fun a => cell S c a)) := by
+  induction c generalizing P with
   | zero =>
-    have hm := minOver_isMin ((S.views 0).filter (fun a => S.p 0 a = ι)) (fun a => S.g 0 a)
+    have hm := minOver_isMin ((S.views 0).filter P) (fun a => cell S 0 a)
     constructor
-    · intro x ⟨hx, hi⟩
-      simp only [dp, past]
-      apply hm.lb
-      simp only [List.mem_filter, decide_eq_true_eq]
-      exact ⟨(S.hviews 0 _).mpr ⟨x, hx, rfl⟩, by rw [← S.hp]; exact hi⟩
+    · intro x ⟨hx, hP⟩
+      simp only [past]
+      have := hm.lb (S.v 0 x) (by
+        simp only [List.mem_filter]
+        exact ⟨(S.hviews 0 hc _).mpr ⟨x, hx, rfl⟩, hP⟩)
+      simpa [cell] using this
     · rcases hm.att with e | ⟨a, ha, e⟩
-      · left; simpa [dp] using e
+      · left; exact e
       · right
-        simp only [List.mem_filter, decide_eq_true_eq] at ha
-        obtain ⟨x, hx, rfl⟩ := (S.hviews 0 a).mp ha.1
-        exact ⟨x, ⟨hx, by rw [S.hp]; exact ha.2⟩, by simpa [dp, past] using e⟩
+        simp only [List.mem_filter] at ha
+        obtain ⟨x, hx, rfl⟩ := (S.hviews 0 hc a).mp ha.1
+        exact ⟨x, ⟨hx, ha.2⟩, by simpa [cell, past] using e⟩
   | succ c ih =>
-    have hm := minOver_isMin ((S.views (c+1)).filter (fun a => S.p (c+1) a = ι))
-                (fun a => cadd (dp S c (S.q c a)) (S.g (c+1) a))
+    have hc' : c < S.n := by omega
+    have hm := minOver_isMin ((S.views (c+1)).filter P) (fun a => cell S (c+1) a)
+    -- the projection entries of column c are minima over assignments with that interface
+    have hproj : ∀ ι, IsMinOf (fun x => x ∈ S.univ ∧ S.i c x = ι) (past S c) (dp S c ι) := by
+      intro ι
+      have := ih hc' (fun a => decide (S.p c a = ι))
+      rw [dp]
+      refine ⟨fun x hx => this.lb x ⟨hx.1, by simpa [← S.hp] using hx.2⟩, ?_⟩
+      rcases this.att with e | ⟨x, hx, e⟩
+      · left; exact e
+      · right; exact ⟨x, ⟨hx.1, by simpa [← S.hp] using hx.2⟩, e⟩
     constructor
-    · intro x ⟨hx, hi⟩
-      simp only [dp, past]
-      have hmem : S.v (c+1) x ∈ (S.views (c+1)).filter (fun a => S.p (c+1) a = ι) := by
-        simp only [List.mem_filter, decide_eq_true_eq]
-        exact ⟨(S.hviews (c+1) _).mpr ⟨x, hx, rfl⟩, by rw [← S.hp]; exact hi⟩
+    · intro x ⟨hx, hP⟩
+      simp only [past]
+      have hmem : S.v (c+1) x ∈ (S.views (c+1)).filter P := by
+        simp only [List.mem_filter]
+        exact ⟨(S.hviews (c+1) hc _).mpr ⟨x, hx, rfl⟩, hP⟩
       refine cle_trans (hm.lb _ hmem) ?_
+      simp only [cell]
       apply cadd_mono _ (cle_refl _)
-      exact (ih (S.q c (S.v (c+1) x))).lb x ⟨hx, S.hq c x⟩
+      exact (hproj (S.q c (S.v (c+1) x))).lb x ⟨hx, S.hq c x⟩
     · rcases hm.att with e | ⟨a, ha, e⟩
-      · left; simpa [dp] using e
-      · simp only [List.mem_filter, decide_eq_true_eq] at ha
-        obtain ⟨x0, hx0, hv0⟩ := (S.hviews (c+1) a).mp ha.1
-        rcases (ih (S.q c a)).att with e' | ⟨y, ⟨hy, hiy⟩, e'⟩
+      · left; exact e
+      · simp only [List.mem_filter] at ha
+        obtain ⟨x0, hx0, hv0⟩ := (S.hviews (c+1) hc a).mp ha.1
+        have e : cadd (dp S c (S.q c a)) (S.g (c+1) a)
+            = minOver ((S.views (c+1)).filter P) (fun a => cell S (c+1) a) := by
+          rw [← e, cell]
+        rcases (hproj (S.q c a)).att with e' | ⟨y, ⟨hy, hiy⟩, e'⟩
         · left
-          have : dp S (c+1) ι = cadd (dp S c (S.q c a)) (S.g (c+1) a) := by simpa [dp] using e.symm
-          rw [this, e']; simp [cadd]
+          rw [← e, e']; simp [cadd]
         · right
           have hi0 : S.i c x0 = S.i c y := by rw [S.hq c x0, hv0, hiy]
           obtain ⟨z, hz, hzp, hzf⟩ := S.glue c x0 y hx0 hy hi0
           refine ⟨z, ⟨hz, ?_⟩, ?_⟩
-          · rw [S.hp, hzf (c+1) (by omega), hv0]; exact ha.2
+          · rw [hzf (c+1) (by omega), hv0]; exact ha.2
           · simp only [past]
             rw [past_congr S c z y hzp, hzf (c+1) (by omega), hv0, e']
-            simpa [dp] using e
+            exact e
+
+/-- DP projection entry = min over all global assignments with that interface of the cost of columns ≤ c -/
+theorem dp_spec [DecidableEq I] (S : Sys X A I) (c : Nat) (hc : c < S.n) (ι : I) :
+    IsMinOf (fun x => x ∈ S.univ ∧ S.i c x = ι) (past S c) (dp S c ι) := by
+  have := cell_spec S c hc (fun a => decide (S.p c a = ι))
+  rw [dp]
+  refine ⟨fun x hx => this.lb x ⟨hx.1, by simpa [← S.hp] using hx.2⟩, ?_⟩
+  rcases this.att with e | ⟨x, hx, e⟩
+  · left; exact e
+  · right; exact ⟨x, ⟨hx.1, by simpa [← S.hp] using hx.2⟩, e⟩
+
+/-- the minimum of the cells of column `c` over ALL its views is the optimum of columns `0..c` -/
+theorem all_spec [DecidableEq I] (S : Sys X A I) (c : Nat) (hc : c < S.n) :
+    IsMinOf (fun x => x ∈ S.univ) (past S c) (minOver (S.views c) (fun a => cell S c a)) := by
+  have := cell_spec S c hc (fun _ => true)
+  have hf : (S.views c).filter (fun _ => true) = S.views c := List.filter_eq_self.mpr (by simp)
+  rw [hf] at this
+  simpa using this
 
 end WhVerif.InterfaceDp
-
